@@ -1,5 +1,114 @@
-From Coq Require Import List NArith.
-From FV Require Import Mem.Shard Mem.Cache.
-Theorem c14_placeholder : usage (init_shard 5) = 0%N.
-Proof. reflexivity. Qed.
-Print Assumptions c14_placeholder.
+(* C14  Victims are chosen as the configured eviction algorithm prescribes.
+   The executable models of Mem/Algo.v are the formalisation of the documented algorithms and are
+   compared with the real code's eviction order on every run (correspondence).  The theorems here
+   state what the FIFO and LRU models guarantee in the property's own terms, and the membership
+   laws that let the generic theorems (C05, C13, C18) apply to the containers. *)
+From Coq Require Import List NArith Bool Permutation Sorted.
+From FV Require Import Mem.Shard Mem.Algo Mem.Concrete Mem.AlgoThms.
+Import ListNotations.
+Open Scope N_scope.
+
+(* determinism: the victim sequence is a function of the operation sequence *)
+Theorem c14_deterministic : forall bucket c s ops r1 r2,
+  crun1 bucket c s ops = r1 -> crun1 bucket c s ops = r2 -> r1 = r2.
+Proof. intros; congruence. Qed.
+Print Assumptions c14_deterministic.
+
+(* FIFO evicts in insertion order: the victim has the smallest id (allocation number) *)
+Theorem c14_fifo_spec : forall q e q',
+  fifo_sorted q -> fifo_pop q = Some (e, q') ->
+  q = e :: q' /\ fifo_sorted q' /\ forall x, In x q' -> (eid e < eid x)%nat.
+Proof. exact fifo_pop_min. Qed.
+Print Assumptions c14_fifo_spec.
+
+Theorem c14_fifo_push_remove_sorted : forall q e i,
+  fifo_sorted q -> (forall x, In x q -> (eid x < eid e)%nat) ->
+  fifo_sorted (fifo_push q e) /\ fifo_sorted (fifo_remove q i).
+Proof. intros; split; [apply fifo_push_sorted | apply fifo_remove_sorted]; assumption. Qed.
+Print Assumptions c14_fifo_push_remove_sorted.
+
+(* LRU: low-priority entries first, then the oldest high-priority one; never a pinned record *)
+Theorem c14_lru_pop : forall s e s',
+  LruInv s -> lru_pop s = Some (e, s') ->
+  LruInv s' /\ l_pin s' = l_pin s /\
+  ((l_low s = e :: l_low s' /\ l_high s' = l_high s) \/
+   (l_low s = [] /\ l_low s' = [] /\ l_high s = e :: l_high s')).
+Proof. exact lru_pop_spec. Qed.
+Print Assumptions c14_lru_pop.
+
+(* LRU keeps at most the configured share in the high-priority pool; the overflow goes, oldest
+   first and in order, to the most-recent end of the low-priority list *)
+Theorem c14_lru_share : forall s, LruInv s ->
+  let s' := lru_settle s in
+  LruInv s' /\ l_hpw s' <= l_hpcap s' /\ l_pin s' = l_pin s /\ l_hpcap s' = l_hpcap s /\
+  exists moved, l_high s = moved ++ l_high s' /\ l_low s' = l_low s ++ moved.
+Proof. exact lru_settle_spec. Qed.
+Print Assumptions c14_lru_share.
+
+Theorem c14_lru_push_share : forall s e, LruInv s -> l_hpw (lru_push s e false) <= l_hpcap s.
+Proof. exact lru_push_hp_bound. Qed.
+Print Assumptions c14_lru_push_share.
+
+(* a looked-up record goes to the pin list; released, it returns to the most-recent end of its pool *)
+Theorem c14_lru_acquire : forall s i, LruInv s ->
+  LruInv (lru_acquire s i) /\
+  (existsb (fun p => ent_is i (fst p)) (l_pin s) = true -> lru_acquire s i = s) /\
+  (existsb (fun p => ent_is i (fst p)) (l_pin s) = false ->
+   forall e, In e (l_low s ++ l_high s) -> eid e = i ->
+   exists e' b, In (e', b) (l_pin (lru_acquire s i)) /\ eid e' = i).
+Proof. exact lru_acquire_spec. Qed.
+Print Assumptions c14_lru_acquire.
+
+Theorem c14_lru_release : forall s i, LruInv s ->
+  LruInv (lru_release s i) /\
+  match take_out (fun p => ent_is i (fst p)) (l_pin s) with
+  | None => lru_release s i = s
+  | Some ((e, true), pin') =>
+      l_pin (lru_release s i) = pin' /\ l_hpw (lru_release s i) <= l_hpcap s /\
+      exists moved, l_high s ++ [e] = moved ++ l_high (lru_release s i) /\
+                    l_low (lru_release s i) = l_low s ++ moved
+  | Some ((e, false), pin') =>
+      l_pin (lru_release s i) = pin' /\ l_low (lru_release s i) = l_low s ++ [e] /\
+      l_high (lru_release s i) = l_high s
+  end.
+Proof. exact lru_release_spec. Qed.
+Print Assumptions c14_lru_release.
+
+(* pop removes exactly its victim from the container (FIFO, LRU, w-TinyLFU) *)
+Theorem c14_pop_members_fifo : forall q e q', fifo_pop q = Some (e, q') -> map eid q = eid e :: map eid q'.
+Proof. exact fifo_pop_members. Qed.
+Print Assumptions c14_pop_members_fifo.
+
+Theorem c14_pop_members_lru : forall s e s',
+  lru_pop s = Some (e, s') -> Permutation (a_members (ALru s)) (eid e :: a_members (ALru s')).
+Proof. exact lru_pop_members. Qed.
+Print Assumptions c14_pop_members_lru.
+
+Theorem c14_pop_members_lfu : forall bucket s e s',
+  lfu_pop bucket s = Some (e, s') -> Permutation (a_members (ALfu s)) (eid e :: a_members (ALfu s')).
+Proof. exact lfu_pop_members. Qed.
+Print Assumptions c14_pop_members_lfu.
+
+(* closed examples of the published rules on the other three models, evaluated by the kernel *)
+Example c14_sieve_hand :
+  (* queue a b c, a and b visited: the hand skips and clears them, evicts c, wraps to the front *)
+  let q := [(mkEnt 0%nat 1 0, true); (mkEnt 1%nat 1 1, true); (mkEnt 2%nat 1 2, false)] in
+  match sieve_pop (mkSieve q None) with
+  | Some (e, s') => eid e = 2%nat /\ v_q s' = [(mkEnt 0%nat 1 0, false); (mkEnt 1%nat 1 1, false)] /\ v_hand s' = None
+  | None => False
+  end.
+Proof. vm_compute. repeat split. Qed.
+
+Example c14_s3fifo_small_to_main :
+  (* small over budget: a (freq 1 >= threshold 1) is promoted, b (freq 0) is evicted and remembered in ghost *)
+  let s := mkS3 [(mkEnt 0%nat 1 10, 1); (mkEnt 1%nat 1 11, 0)] [] [] [] 4 0 1 2 0 1 in
+  match s3_pop s with
+  | Some (e, s') => eid e = 1%nat /\ s_main s' = [(mkEnt 0%nat 1 10, 1)] /\ s_gset s' = [11] /\ s_sw s' = 0 /\ s_mw s' = 1
+  | None => False
+  end.
+Proof. vm_compute. repeat split. Qed.
+
+Example c14_nonvacuous_lru :
+  LruInv (mkLru [] [mkEnt 0%nat 2 0; mkEnt 1%nat 2 1] [] 4 4) /\
+  lru_pop (mkLru [] [mkEnt 0%nat 2 0; mkEnt 1%nat 2 1] [] 4 4) = Some (mkEnt 0%nat 2 0, mkLru [] [mkEnt 1%nat 2 1] [] 2 4).
+Proof. split; [constructor; reflexivity|reflexivity]. Qed.
